@@ -52,6 +52,9 @@ impl<R: AsyncRead> AsyncRead for Take<R> {
     open spec fn rid(&self) -> int { self.tid() }
     #[verifier::prophetic]
     open spec fn end_rid(&self) -> int { self.tend_id() }
+    open spec fn aux(&self) -> Seq<u8> { Seq::empty() }
+    #[verifier::prophetic]
+    open spec fn end_aux(&self) -> Seq<u8> { Seq::empty() }
     #[verifier::external_body]
     proof fn resolved(&self) {}
     #[verifier::external_body]
@@ -79,7 +82,7 @@ impl AsyncReadExt {
         ensures
             take_inner_end(t.tid()) == reader.end_hist(),
             take_start(t.tid()) == reader.hist().len(),
-            reader.hist().is_prefix_of(reader.end_hist()),
+            kept(reader),   // Take only ever reads from the reader it wraps, and gives it up with itself
             take_budget(t.tid()) == limit,
             t.thist().len() == 0,
     { unimplemented!() }
